@@ -1,3 +1,4 @@
-From Coq Require Import Extraction ExtrOcamlBasic ZArith.
-From ScV Require Import Base.CInt Gen.StatsC13 C13.StatsModel.
-Extraction "c13_model.ml" combine local clean_rec eval build_tree mk cnt sm sq mn mx mnr mxr.
+From Coq Require Import Extraction ExtrOcamlBasic ZArith QArith.
+From ScV Require Import Base.CInt Gen.StatsC13 C13.StatsModel C13.VarModel.
+Extraction "c13_model.ml" combine local clean_rec eval build_tree mk cnt sm sq mn mx mnr mxr
+  hist_exec round_exec run_ops step post pack vzero mkv name_set name_reset name_reset_frees mkn group_all prio_all.
